@@ -32,15 +32,20 @@ contract(F, "Fiber.setSavedPos",
                                           "self._saved_dist == old(self._saved_dist)"])})
 
 # ---------------------------------------------------------------- search
+PARTITION = ["0 <= result <= len(%(xs)s)",
+             "forall(lambda k: %(xs)s[k] < coord, 0, result)",
+             "forall(lambda k: %(xs)s[k] >= coord, result, len(%(xs)s))"]
 contract(F, "Fiber._coord2pos",
-         cases=[dict(self="Fiber", coord="int"), dict(self="Fiber", coord="int", start_pos="opt[int]")],
-         case_names=["bisect", "start_pos"], returns="int",
+         cases=[dict(self="Fiber", coord="int"), dict(self="Fiber", coord="int", start_pos="opt[int]"),
+                dict(self="Fiber", coord="int", coords="list[int]")],
+         case_names=["bisect", "start_pos", "given_list"], returns="int",
          requires=["wf(self)", "isnone(self._max_coord)"],
-         per_case={"start_pos": dict(requires=[LEGAL_START])},
+         per_case={"bisect": dict(ensures=[x % dict(xs="self.coords") for x in PARTITION]),
+                   "start_pos": dict(requires=[LEGAL_START], ensures=[x % dict(xs="self.coords") for x in PARTITION]),
+                   # an explicit list to search (any ascending list, not necessarily the fiber's own)
+                   "given_list": dict(requires=["sorted_weak(coords)"], ensures=[x % dict(xs="coords") for x in PARTITION])},
          modifies=[],
-         ensures={"C01 C03 C07": ["0 <= result <= len(self.coords)",
-                                  "forall(lambda k: self.coords[k] < coord, 0, result)",
-                                  "forall(lambda k: self.coords[k] >= coord, result, len(self.coords))"]},
+         ensures={"C01 C03 C07": ["0 <= result"]},
          loops={0: dict(invariant=["index == len(coords)", "coords is self.coords",
                                    "forall(lambda k: coords[k] < coord, val(start_pos), val(start_pos) + _i0)"])},
          note="the legal-start precondition is the one getPayload asserts; with it the linear search equals the bisect result "
